@@ -228,4 +228,6 @@ def run(tier):
     dep_rules(chk)
     c20.seq_rules(chk)
     chk.floor('rule instances', len(chk.obls), 40)
+    from .. import lints
+    lints.length_is_boolean(chk, ['src/ssl/ssl_rec', 'src/ssl/ssl_engine'])
     return chk.finish()
